@@ -163,6 +163,7 @@ class CoreWorld(World):
         self.fail_at = fail_at  # ("callee", k): the k-th call of that callee raises
         self.counts = {}
         self.next_id = 100
+        self.uncontracted = []
         self.interrupt_at = None
         self.set_global("core", "MultiTypeMap", Builtin("MultiTypeMap", lambda I, name=None, key_error=None: MapObj(self, name, key_error)))
         self.set_global("core", "generate_dispatch", Builtin("generate_dispatch", self.generate_dispatch))
@@ -182,12 +183,24 @@ class CoreWorld(World):
 
     def reset(self):
         """world-level ghost state is per path"""
+        del self.uncontracted[:]
         self.maps_created.clear()
         self.ovlds.clear()
         self.log.clear()
         self.events = 0
         self.counts = {}
         self.interrupt_at = None
+
+    def policy(self, I, qual):
+        pol = super().policy(I, qual)
+        if pol is None and qual.split(":")[0] in ("core", "recode", "typemap", "utils") and not qual.startswith("core:Ovld."):
+            # a helper the contracts do not know (introduced by a change): recorded; every task requires that none was needed
+            def uncontracted(I2, args, kwargs):
+                self.uncontracted.append(qual)
+                return Tok(f"result of {qual}")
+
+            return uncontracted
+        return pol
 
     def is_singleton(self, I, z, other):
         return False
@@ -546,6 +559,7 @@ def t_compile(gname, mode="post", which="last", empty_attrs=False):
             I.require(not changed(before, after, allow), "compile_touches_only_self_and_the_lock_of_direct_parents")
             disp = target.f.get("dispatch")
             I.require(isinstance(disp, DispatchFn) and disp.attrs.get("map") is m and isinstance(disp.attrs.get("__code__"), tuple), "entry_point_swapped_to_the_generated_code_over_the_new_table")
+            I.require(not w.uncontracted, "the_build_calls_no_library_function_that_has_no_contract")
             gen = getattr(w, "last_generated", None)
             if isinstance(disp, DispatchFn) and gen is not None:
                 same = all(disp.attrs.get(a_) is gen.attrs[a_] or disp.attrs.get(a_) == gen.attrs[a_] for a_ in ("__defaults__", "__kwdefaults__", "__annotations__"))
